@@ -425,12 +425,16 @@ def py_label(fname, n):
     return "lb_%s_%d" % (fname, n)
 
 
-def op_text(o, fname, n=0):
+def op_text(o, fname, n=0, style=0):
+    """style 0: canonical spelling; style 1: the other documented spellings (octal integers, explicit zero displacement
+    and explicit scale 1)"""
     k = o["k"]
     if k in ("reg", "ref"):
         return o["name"]
     if k in ("int", "uint"):
         v = int(o["v"], 16)
+        if style == 1 and n % 3 == 2 and 0 < v < (1 << 31):
+            return "0%o" % v
         return ("0x%x" % v) if n % 2 else str(s64(v))
     if k in ("f", "d", "ld"):
         return fp_text(k, o["v"])
@@ -442,13 +446,13 @@ def op_text(o, fname, n=0):
         t = o["t"]
         disp = s64(int(o["disp"], 16))
         s = t + ":"
-        if disp != 0 or (not o["base"] and not o["index"]):
+        if disp != 0 or (not o["base"] and not o["index"]) or style == 1:
             s += str(disp)
         if o["base"] or o["index"]:
             s += "(" + o["base"]
             if o["index"]:
                 s += ", " + o["index"]
-                if o["scale"] != 1:
+                if o["scale"] != 1 or style == 1:
                     s += ", %d" % o["scale"]
             s += ")"
         if o["alias"] or o["nonalias"]:
@@ -486,19 +490,39 @@ def data_text(it):
     return vals
 
 
-def to_text(M):
+def text_style(M):
+    """which of the two renderings a module gets (both are MIR.md syntax; half of the modules get each)"""
+    n = 0
+    for m in M["mods"]:
+        n += len(m["items"])
+        for it in m["items"]:
+            if it["k"] == "func":
+                n += len(it["insns"])
+    return n % 2
+
+
+def to_text(M, style=None):
+    """style 0: one directive / instruction per line, every operand of ref/lref written out.
+    style 1: the other documented forms: `import a, b`, `ref x` / `lref l` without a zero displacement, several
+    instructions on a line separated by `;`, comments and empty lines, octal integers, explicit zero displacement / scale 1"""
+    if style is None:
+        style = text_style(M)
     L = []
     for mi, m in enumerate(M["mods"]):
-        L.append("%s: module" % m["name"])
+        L.append("%s: module" % m["name"] + ("   # rendered by c10.py" if style else ""))
+        prev = None
         for it in m["items"]:
             k = it["k"]
             lab = (it["name"] + ": ") if it.get("name") else "   "
             if k in ("import", "export", "forward"):
-                L.append("  %s %s" % (k, it["name"]))
+                if style == 1 and prev == k:
+                    L[-1] += ", " + it["name"]
+                else:
+                    L.append("  %s %s" % (k, it["name"]))
             elif k == "proto":
                 L.append("%s: proto %s" % (it["name"], proto_text(it)))
             elif k == "bss":
-                L.append("%sbss %d" % (lab, int(it["len"], 16)))
+                L.append(("%sbss 0x%x" if style else "%sbss %d") % (lab, int(it["len"], 16)))
             elif k == "data":
                 raw = bytes.fromhex(it["hex"])
                 if it["t"] == "u8" and it.get("via") == "string" and (raw.endswith(b"\0") or not raw):
@@ -506,13 +530,14 @@ def to_text(M):
                 else:
                     L.append("%s%s %s" % (lab, it["t"], ", ".join(data_text(it))))
             elif k == "ref":
-                L.append("%sref %s, %d" % (lab, it["ref"], s64(int(it["disp"], 16))))
+                d = s64(int(it["disp"], 16))
+                L.append("%sref %s" % (lab, it["ref"]) + ("" if style == 1 and d == 0 else ", %d" % d))
             elif k == "lref":
                 s = "%slref %s" % (lab, py_label(*it["l1"]))
                 if it["l2"]:
                     s += ", " + py_label(*it["l2"])
                 d = s64(int(it["disp"], 16))
-                if d != 0 or not it["l2"]:
+                if d != 0 or (style == 0 and not it["l2"]):
                     s += ", %d" % d
                 L.append(s)
             elif k == "expr":
@@ -524,15 +549,25 @@ def to_text(M):
                 for g in it["globals"]:
                     L.append("  global %s:%s:%s" % (g["t"], g["name"], g["hr"]))
                 pend = ""
+                joined = False
                 for n, I in enumerate(it["insns"]):
                     if I["op"] == "label":
                         pend += py_label(it["name"], I["n"]) + ": "
                     else:
-                        L.append("%s  %s %s" % (pend, I["op"], ", ".join(op_text(o, it["name"], n + j) for j, o in enumerate(I["ops"]))))
+                        txt = "%s %s" % (I["op"], ", ".join(op_text(o, it["name"], n + j, style) for j, o in enumerate(I["ops"])))
+                        if style == 1 and not pend and not joined and n > 0 and it["insns"][n - 1]["op"] != "label" and n % 2:
+                            L[-1] += "; " + txt.strip()
+                            joined = True
+                        else:
+                            L.append("%s  %s" % (pend, txt.rstrip()))
+                            joined = False
                         pend = ""
                 if pend:
                     L.append(pend)
+                if style:
+                    L.append("")
                 L.append("  endfunc")
+            prev = k
         L.append("  endmodule")
     return "\n".join(L) + "\n"
 
